@@ -133,6 +133,10 @@ func (g *Gen) genFunc(fs *FuncSpec) {
 		}
 		withAliases(rv, rename)
 		env := &Env{g: g, st: r.st, old: st0, vars: rv, pc: r.pc, hyp: false}
+		for _, u := range fs.UsesRet {
+			henv := &Env{g: g, st: r.st, old: st0, vars: rv, pc: r.pc, hyp: true}
+			g.useAxiom(henv, u)
+		}
 		for k, c := range ens {
 			if !g.wantClause(c) {
 				continue
@@ -294,7 +298,7 @@ func (f *frame) invEnv(st *State, pc string, hyp bool, li *loopInfo) *Env {
 	for k, v := range g.ghostVals {
 		vars[k] = v
 	}
-	e := &Env{g: g, st: st, old: g.entry, vars: vars, cells: f.cells, pc: pc, hyp: hyp}
+	e := &Env{g: g, st: st, old: g.entry, vars: vars, cells: f.cells, pc: pc, hyp: hyp, frame: f}
 	if li != nil {
 		// inside a loop's clauses "rangeindex" is that loop's own index variable
 		if ri, _ := rangeLoopShape(li); ri != nil {
@@ -865,6 +869,21 @@ func (f *frame) loopMods(li *loopInfo) ([]*ssa.Alloc, []string) {
 					}
 					if callee.Pkg != g.P.SPkg {
 						mark("alloc")
+						if !externalIsPure(callee.String()) {
+							for _, a := range com.Args {
+								if mi, ok := a.(*ssa.MakeInterface); ok {
+									a = mi.X
+								}
+								switch t := a.Type().Underlying().(type) {
+								case *types.Slice:
+									if !isByteSlice(a.Type()) {
+										mark(g.elemHeapOf(t.Elem()))
+									}
+								case *types.Pointer:
+									baseOf(a, bind)
+								}
+							}
+						}
 						if callee.String() == "sort.Strings" {
 							mark("E.NB")
 							g.elemHeapOf(types.Typ[types.String])
